@@ -165,3 +165,19 @@ PROPS["C09"] = {
     "note": "Output bytes of whole runs and 'the help page of that command' are not decided. With C08-R3 (option tokens = prefix "
             "before '--') this gives the 'same tokens after -- have no effect' clause.",
 }
+
+SOURCE_COMMITS.append("8f81bcb")  # fix: trailing backslash is a literal backslash (C08)
+
+PROPS["C08"] = {
+    "claimed": True,
+    "technique": "static analysis: typestate/null analysis of the scanner's Optional characters on the CFG, loop-progress (termination) argument with advance summaries, sibling agreement of RawArgs implementations",
+    "text": (
+        "Decides totality-relevant structure of the tokenizer: the current/lookahead characters (Optional) are used as strings only in "
+        "the 'valid' typestate - established by the true edge of the validity test and killed by any call that reaches the cursor "
+        "advance; every iteration of every scanner loop passes a call that always advances (summaries computed bottom-up from _next) "
+        "or leaves the loop, so the scan terminates; every RawArgs implementation derives option tokens as takewhile(!= '--') of its "
+        "tokens and answers has_option_token / has_token from the right list."
+    ),
+    "note": "The quote/unquote inverse law and exact splitting at whitespace are string-valued and not decided. Infeasible-edge pruning "
+            "is limited to re-evaluations of the validity test in the valid typestate.",
+}
